@@ -6,6 +6,8 @@
              skipped when done; on success the section is done and a HeaderAck is queued when dyn_ref
      b<j>    a bare Decoder::decode_header call on section j (nothing recorded, no ack)
      K<k>    deliver the next k decoder-stream instructions to Encoder::on_decoder_recv (one call)
+     i<n>    hand the next n encoder-stream BYTES to Decoder::on_encoder_recv (after the unconsumed tail of earlier calls)
+     k<n>    hand the next n decoder-stream BYTES to Encoder::on_decoder_recv (after the unconsumed tail of earlier calls)
      C<sid>  the decoder abandons the stream (its sections are done) and queues a StreamCancel;   Z<n>  encoder::set_dynamic_table_size
    one word per op is printed; the spec column has one word per op ('*' = unconstrained)
    hp.new R B T M / hp.get EIC S D T M / vas.* : the index arithmetic alone *)
@@ -68,13 +70,15 @@ let parse_op s =
       let sid = n_of_string (String.sub rest 0 i) in
       let fs = String.sub rest (i + 1) (String.length rest - i - 1) in
       let fs = if fs = "" then [] else List.map parse_field (String.split_on_char '.' fs) in
-      OEncode (sid, fs)
-  | 'I' -> ODeliver (n_of_string rest)
-  | 'B' -> ODecode (n_of_string rest, true)
-  | 'b' -> ODecode (n_of_string rest, false)
-  | 'K' -> OFeedback (n_of_string rest)
-  | 'C' -> OCancel (n_of_string rest)
-  | 'Z' -> OResize (n_of_string rest)
+      BOp (OEncode (sid, fs))
+  | 'I' -> BOp (ODeliver (n_of_string rest))
+  | 'B' -> BOp (ODecode (n_of_string rest, true))
+  | 'b' -> BOp (ODecode (n_of_string rest, false))
+  | 'K' -> BOp (OFeedback (n_of_string rest))
+  | 'C' -> BOp (OCancel (n_of_string rest))
+  | 'Z' -> BOp (OResize (n_of_string rest))
+  | 'i' -> BDeliverBytes (n_of_string rest)
+  | 'k' -> BFeedbackBytes (n_of_string rest)
   | _ -> failwith "op"
 
 let rec take k l = if k = 0 then [] else match l with [] -> [] | x :: r -> x :: take (k - 1) r
@@ -83,17 +87,23 @@ let run_qs cap blocked ops =
   match sys_init cap blocked with
   | None -> "init-err | *"
   | Some s0 ->
-    let s = ref s0 in
+    let bs = ref { b_sys = s0; b_epend = N0; b_dpend = N0 } in
     let rd = ref (Some { r_live = []; r_dropped = N0; r_cap = cap }) in
     let resized = ref false in
     let out = Buffer.create 256 and spec = Buffer.create 256 in
     let stop = ref false in
     List.iter (fun o ->
       if not !stop then begin
-        let before = !s in
-        let (s1, r) = sys_step before o in
-        s := s1;
-        let letter = match o with OEncode _ -> "E" | ODeliver _ -> "I" | ODecode _ -> "B" | OFeedback _ -> "K" | OCancel _ -> "C" | OResize _ -> "Z" in
+        let before = !bs.b_sys in
+        let (b1, r) = bstep !bs o in
+        bs := b1;
+        let s1 = b1.b_sys in
+        let delivered_k = List.length before.s_eq - List.length s1.s_eq in
+        let o = (match o with
+                 | BOp o' -> o'
+                 | BDeliverBytes _ -> ODeliver (n_of_int delivered_k)
+                 | BFeedbackBytes _ -> OFeedback (n_of_int (List.length before.s_dq - List.length s1.s_dq))) in
+        let wired i = (match wire_dinstr i with Ok b -> hx b | _ -> "wire-err") in
         let w = match o, r with
           | _, RPanic _ -> stop := true; letter ^ ":panic"
           | OEncode _, REncoded e ->
@@ -104,9 +114,13 @@ let run_qs cap blocked ops =
                 (wire (wire_block e.en_block)) (wire (wire_einstrs e.en_instrs)) (estate s1.s_enc)
           | OEncode _, REncErr e -> "E:err:" ^ enc_err_name e
           | ODeliver _, RDelivered (ins, inc) ->
-              Printf.sprintf "I:%s:%s:%s" (sn ins) (match inc with Some i -> dinstrstr i | None -> "-") (dstate s1.s_dec)
+              Printf.sprintf "I:%s:%s:%s:%s" (sn ins) (match inc with Some i -> dinstrstr i | None -> "-")
+                (match inc with Some i -> wired i | None -> "-") (dstate s1.s_dec)
           | ODeliver _, RDecErr e -> "I:" ^ dec_err_word e
-          | ODecode _, RDecoded (fs, dr) -> Printf.sprintf "B:ok:%s:%d" (fieldsstr fs) (if dr then 1 else 0)
+          | ODecode (j, honest), RDecoded (fs, dr) ->
+              let ack = (match nth_opt before.s_secs j with
+                         | Some sec when honest && dr -> wired (DAck sec.sec_sid) | _ -> "-") in
+              Printf.sprintf "B:ok:%s:%d:%s" (fieldsstr fs) (if dr then 1 else 0) ack
           | ODecode _, RDecErr e -> "B:" ^ dec_err_word e
           | ODecode _, RNoSuchSection -> "B:nosuch"
           | ODecode _, RHeld -> "B:held"
